@@ -294,6 +294,47 @@ func genCase(rng *rand.Rand, cfg vh.Config, i int) *Case {
 			c.Ph4 = s
 		}
 	}
+	// a ctl rule in one of the phases 1-3 changes the body settings of the running transaction
+	ctlPhase := 0
+	if rng.Intn(100) < 22 {
+		ctlPhase = pick(rng, 1, 2, 3, 3, 3)
+		k := &CtlSpec{Kind: "always"}
+		switch ctlPhase {
+		case 1:
+			if rng.Intn(3) == 0 {
+				k.Kind, k.K, k.V = "header", "X-Attack", "1"
+			}
+			if rng.Intn(3) == 0 {
+				k.QAcc = pick(rng, "on", "off")
+			}
+			if rng.Intn(3) == 0 {
+				k.QLim = 1 + rng.Intn(c.ReqLimit)
+			}
+		case 3:
+			switch rng.Intn(4) {
+			case 0:
+				k.Kind, k.K, k.V = "header", "X-Leak", "1"
+			case 1:
+				k.Kind, k.Code = "status", pick(rng, 200, 404, 201)
+			}
+		}
+		k.RAcc = pick(rng, "", "on", "on", "off")
+		k.Force = pick(rng, "", "on", "on", "off")
+		if rng.Intn(3) == 0 {
+			k.RLim = 1 + rng.Intn(c.RespLimit)
+		}
+		switch ctlPhase {
+		case 1:
+			c.Ctl1 = k
+		case 2:
+			c.Ctl2 = k
+		default:
+			c.Ctl3 = k
+		}
+		if rng.Intn(2) == 0 {
+			c.Ph4 = Spec{Kind: pick(rng, "txflag", "txflag", "always"), Action: "deny", Status: pick(rng, 403, 0, 401)}
+		}
+	}
 	// request
 	c.Method = pick(rng, "POST", "POST", "POST", "PUT", "GET")
 	c.Chunked = rng.Intn(3) == 0
@@ -309,7 +350,7 @@ func genCase(rng *rand.Rand, cfg vh.Config, i int) *Case {
 	} else {
 		c.DownRF = rng.Intn(3) == 0
 	}
-	if c.Ph1.Kind == "header" && rng.Intn(10) < 6 || rng.Intn(15) == 0 {
+	if c.Ph1.Kind == "header" && rng.Intn(10) < 6 || rng.Intn(15) == 0 || c.Ctl1 != nil && c.Ctl1.Kind == "header" && rng.Intn(10) < 7 {
 		c.ReqHeaders = append(c.ReqHeaders, []string{"X-Attack", pick(rng, "1", "1", "0")})
 	}
 	if rng.Intn(6) == 0 {
@@ -634,4 +675,72 @@ func readFromGridCases(cfg vh.Config) []*Case {
 		}
 	}
 	return out
+}
+
+// ctlGridCases: a rule of phase 1, 2 or 3 changes by ctl whether the response body is buffered
+// (responseBodyAccess, forceResponseBodyVariable, responseBodyLimit) under static settings that would
+// or would not buffer (SecResponseBodyAccess, Content-Type vs SecResponseBodyMimeType), with a phase-4
+// deny that is unconditional, on RESPONSE_BODY, or on the TX variable the ctl rule set.
+func ctlGridCases(cfg vh.Config) []*Case {
+	var out []*Case
+	none := Spec{Kind: "none"}
+	hx := func(s string) string { return hex.EncodeToString([]byte(s)) }
+	effects := []CtlSpec{
+		{RAcc: "on"}, {Force: "on"}, {RAcc: "on", Force: "on"}, {RAcc: "off"}, {RAcc: "on", Force: "on", RLim: 6}, {Force: "off", RLim: 3},
+	}
+	ph4s := []Spec{
+		{Kind: "always", Action: "deny", Status: 403},
+		{Kind: "contains", Marker: hx(respMarker), Action: "deny"},
+		{Kind: "txflag", Action: "deny", Status: 401},
+	}
+	n := 0
+	for _, access := range []bool{false, true} {
+		for _, ct := range []string{"text/plain", "image/png"} {
+			for phase := 1; phase <= 3; phase++ {
+				for _, eff := range effects {
+					for _, p4 := range ph4s {
+						n++
+						c := &Case{Mode: "server", Engine: "On", ReqAccess: true, ReqLimit: 100, ReqAction: "Reject",
+							RespAccess: access, RespLimit: 100, RespAction: pick2(n, "Reject", "ProcessPartial"), Mimes: []string{"text/plain"},
+							Ph1: none, Ph2: none, Ph3: none, Ph4: p4, Method: "POST", ReqCT: "application/x-www-form-urlencoded",
+							BodyHex: hx("a=1"), DownRF: n%3 != 0}
+						if n%5 == 0 {
+							c.Mode, c.DownRF = "recorder", false
+						}
+						if !cfg.Thorough() && n%2 == 0 && phase != 3 {
+							continue // the quick tier keeps every phase-3 case and half of the others
+						}
+						k := eff
+						k.Kind = "always"
+						if phase == 3 && n%4 == 0 {
+							k.Kind, k.K, k.V = "header", "X-Leak", "1"
+						}
+						switch phase {
+						case 1:
+							c.Ctl1 = &k
+						case 2:
+							c.Ctl2 = &k
+						default:
+							c.Ctl3 = &k
+						}
+						c.Ops = []Op{{Op: "rdall"}, {Op: "set", K: "Content-Type", V: ct}, {Op: "set", K: "X-Leak", V: "1"}}
+						if n%3 == 1 {
+							c.Ops = append(c.Ops, Op{Op: "wh", C: 201})
+						}
+						c.Ops = append(c.Ops, Op{Op: "w", Hex: hx("top ")}, Op{Op: "fl"}, Op{Op: "w", Hex: hx(respMarker)},
+							Op{Op: "rf", Chunks: []string{hx(" ta"), hx("il")}}, Op{Op: "fl"})
+						out = append(out, c)
+					}
+				}
+			}
+		}
+	}
+	return out
+}
+
+func pick2(n int, a, b string) string {
+	if n%2 == 0 {
+		return a
+	}
+	return b
 }
